@@ -770,7 +770,7 @@ struct Engine : public vf::Engine {
         reg.runAllTests(res);
         UtestShell::resetCrashMethod(); mock().crashOnFailure(false); mock_c()->crashOnFailure(0); g_nestedCmp = false;
         reg.resetPlugins();
-        mock().clear(); mock().removeAllComparatorsAndCopiers();
+        mock().clear(); mock().enable(); mock().removeAllComparatorsAndCopiers();      // (every run of a worker starts from a mock that is switched on, whatever the run before left)
         saved->setCurrentRegistry(0);
         failsPerTest.assign(scs.size(), Vec<std::pair<Str, Str> >());
         for (size_t i = 0; i < out.fails.size(); i++) for (size_t t = 0; t < names.size(); t++) if (out.fails[i].first == names[t]) failsPerTest[t].push_back(out.fails[i]);
@@ -837,6 +837,7 @@ struct Engine : public vf::Engine {
                 for (size_t q = 0; q < x.consumed.size() && li < outs[i].log.size(); q++, li++) {
                     if (x.consumed[q] < 0) continue;
                     const Cls& C = cls[(size_t)x.consumed[q]]; const Fn& F = FNS[C.fn]; const Str& line = outs[i].log[li]; int ret = C.ret;
+                    if (getenv("MOCKSIM_DEBUG")) fprintf(stderr, "call ignoreOther=%d ret=%d: %s\n", (int)C.ignoreOther, ret, line.c_str());
                     Str want;
                     if (ret == 7) want = " has=0 ";
                     else switch (F.ret) {
@@ -846,6 +847,7 @@ struct Engine : public vf::Engine {
                     case T_LL: want = sfmt(" def=%lld v=%lld ", (long long)longPool[ret], (long long)longPool[ret]); break; case T_ULONG: want = sfmt(" def=%lu v=%lu ", (unsigned long)ulongPool[ret], (unsigned long)ulongPool[ret]); break; default: want = " has=0 "; break;
                     }
                     if ((line + " ").find(want) == Str::npos) r.fail("C08", "returned_value", sg("type", tyNames[F.ret]), sfmt("scenario %zu schedule %d call %zu (%s): %s, expected to contain '%s'", i, k, q, F.name, line.c_str(), want.c_str()));
+                    if (want != " has=0 " && line.compare(0, strlen(F.name) + 7, Str(F.name) + " has=1 ") != 0) r.fail("C08", "returned_value", sg("type", "asked before anything else"), sfmt("scenario %zu schedule %d call %zu (%s): %s: the first thing the mocked function asks is whether there is a return value; the expectation it consumed has one", i, k, q, F.name, line.c_str()));
                     if (F.out) { Str wo = F.outTy == T_INT ? sfmt(" out=%d", 100 + ret) : sfmt(" out=MyType(%d)", ret); if (line.find(wo) == Str::npos) r.fail("C08", "output_bytes", sg("type", tyNames[F.outTy]), sfmt("scenario %zu call %zu (%s): %s, expected '%s'", i, q, F.name, line.c_str(), wo.c_str())); }
                 }
             }
